@@ -650,6 +650,7 @@ type Hooks struct {
 	Timeouts   *Timeouts
 	OnAgent    func(gen int, a *Agent)                         // after start
 	BeforeStop func(gen int, a *Agent, ups []*upstream.Server) // right before the stop request
+	AfterStop  func(gen int)                                   // right after the stop has returned
 	Watchdog   time.Duration
 	OnStuck    func(gen int, where string)
 	// ProcessLevel runs every generation as its own OS process through run.Run, stopped with SIGTERM (see procagent.go).
@@ -889,6 +890,9 @@ func Run(sc Scenario, work string, hk Hooks) (*Obs, error) {
 				hk.OnStuck(gi, "graceful stop")
 			}
 			return obs, fmt.Errorf("gen %d: stop did not return within %s", gi, wd)
+		}
+		if hk.AfterStop != nil {
+			hk.AfterStop(gi)
 		}
 		close(stopCh)
 		wg.Wait()
